@@ -121,6 +121,22 @@ Theorem c10_stream_closed_event_once : forall f evs i, (nsclosed i (snd (run (in
 Proof. intros f evs i. exact (sclosed_run evs (init f) i). Qed.
 Print Assumptions c10_stream_closed_event_once.
 
+(* The user's stream Close is two events - the call (status swapped to Draining, close request written)
+   and the end of its exchange - so ANY number of sequential or overlapping Close calls of one stream is
+   an event list: the theorem above covers the overlap, and over any history at most one close request
+   per stream is ever written (an overlapping Close returns "already draining" without touching the wire). *)
+Theorem c10_stream_close_request_once : forall f evs i, (ncloseReq i (snd (run (init f) evs)) <= 1)%nat.
+Proof. intros f evs i. exact (closereq_run evs (init f) i). Qed.
+Print Assumptions c10_stream_close_request_once.
+
+Theorem c10_overlapping_close_once :
+  let r := run (init faithful) [EStart 0 KOpenUp; EWake 0; EResp 0; EWrite 0;
+                                EStreamClose 0; EStreamClose 0; EStreamClose 0; EStreamCloseResp 0; EStreamCloseResp 0;
+                                EStreamClose 0] in
+  closereqs_of (snd r) = [0] /\ sclosed_of (snd r) = [(0, false)] /\ finals_of (fst r) = [(0, 2)].
+Proof. exact overlapping_close_once. Qed.
+Print Assumptions c10_overlapping_close_once.
+
 (* MAIN: a stream supervisor that is waiting for the connection returns once the connection is closed
    (WaitUntilOrClosed): nothing of the modelled supervisors survives a Close during an outage *)
 Theorem c10_supervisor_returns_on_close : forall c i s, fix_leak (c_cfg c) = true -> c_status c = Closed ->
@@ -148,7 +164,7 @@ Print Assumptions c10_supervisor_leak_former_refuted.
 (* non-vacuity: two streams, one closed by the user first, buffered data, a pending call, double Close *)
 Example c10_example :
   let evs := [EStart 0 KOpenUp; EWake 0; EResp 0; EStart 1 KOpenDown; EWake 1; EResp 1; EWrite 0;
-              EStreamClose 1; EStart 2 KCall; EWake 2; ECloseCall; EWatch 0; ECloseDisc; ECloseWire; ECloseCall;
+              EStreamClose 1; EStreamCloseResp 1; EStart 2 KCall; EWake 2; ECloseCall; EWatch 0; ECloseDisc; ECloseWire; ECloseCall;
               EFail 2; EStart 3 KOpenUp; EStart 4 KMeta; EWake 4; ELoop; EDial true] in
   let r := run (init faithful) evs in
   c_status (fst r) = Closed /\
